@@ -686,7 +686,7 @@ fn run_wide_line(f: &[&str], out: &mut Out, hist: &mut Hist) {
 }
 
 fn generate_wide(args: &Args, out: &mut Out, hist: &mut Hist) {
-    let n = args.n.unwrap_or(if args.thorough() { 6000 } else { 600 });
+    let n = args.n.unwrap_or(if args.thorough() { 6000 } else { 800 });
     let mut rng = Rng::new(args.seed ^ 0x17_17);
     for i in 0..n {
         let mut prng = rng.fork();
